@@ -95,7 +95,9 @@ def make_entries(fmt, n, lens, rng):
             out.append(f"c{num}\tsrc\texon\t{num}\t{int(num) + 5}\t.\t+\t.\tgene_id \"g{i}\"; transcript_id \"t{i}\";\n")
         elif fmt in ("k4", "fastq"):
             z = 0 if l == 0 else l
-            out.append(f"@r{num if l else 'z%d' % i}\n{_w(rng, z)}\n+\n{'I' * z}\n")
+            # quality lines that START with a marker character ('@' is Phred 31, '+' Phred 10): only the line's position says what it is
+            qual = ('I' * z) if i % 3 == 0 or z == 0 else (['@', '+'][i % 2] + 'I' * (z - 1))
+            out.append(f"@r{num if l else 'z%d' % i}\n{_w(rng, z)}\n+\n{qual}\n")
         elif fmt in ("k2", "fasta2line"):
             out.append(f">s{num if l else 'z%d' % i}\n{_w(rng, l)}\n")
         elif fmt.startswith("fasta"):
@@ -104,7 +106,8 @@ def make_entries(fmt, n, lens, rng):
                 out.append(f">sz{i}\n")
                 continue
             s = _w(rng, l)
-            out.append(f">s{num}\n" + "".join(s[j:j + width] + "\n" for j in range(0, len(s), width)))
+            desc = "" if i % 3 else " c.76A>T p.(Arg26>Ter)"      # a '>' inside the description line (HGVS-style names)
+            out.append(f">s{num}{desc}\n" + "".join(s[j:j + width] + "\n" for j in range(0, len(s), width)))
         else:
             raise ValueError(fmt)
     if fmt == "vcf":
@@ -277,6 +280,14 @@ def cases(tier, rng):
                     for gz, nl, lazy in (itertools.product((False, True), (True, False), (True, False)) if big else [(rng.random() < 0.5, True, rng.random() < 0.5), (False, False, False)]):
                         yield {"op": "entries", "fmt": "fasta", "header": header, "ents": ents, "gz": gz, "nl": nl, "crlf": False, "lazy": lazy, "k": k,
                                "longest": max(len(e) for e in ents) + 2}
+    # --- bnp.count_entries = number of entries of the whole read (marker characters inside descriptions / quality lines included)
+    for fmt in fmts:
+        for n in ((1, 3, 6, 9) if big else (3, 7)):
+            for lens in ([2, 5, 1], [5, 5, 5]):
+                ents, header = make_entries(fmt, n, lens, rng)
+                for gz in (False, True):
+                    yield {"op": "entries", "fmt": fmt, "header": header, "ents": ents, "gz": gz, "nl": rng.random() < 0.7, "crlf": False, "lazy": False,
+                           "k": 500000, "longest": max(len(e) for e in ents) + 2, "count": True}
     # --- the chunks joined as tables (np.concatenate), after a field of only some of them was looked at
     for fmt in fmts:
         for n in ((3, 5, 8) if big else (5,)):
@@ -286,6 +297,10 @@ def cases(tier, rng):
                 for touched in ([], [0], [1], [0, 2], [0, 1, 2, 3, 4, 5, 6, 7]):
                     yield {"op": "entries", "fmt": fmt, "header": header, "ents": ents, "gz": rng.random() < 0.3, "nl": rng.random() < 0.7, "crlf": False,
                            "lazy": rng.random() < 0.7, "k": k, "longest": max(len(e) for e in ents) + 2, "npcat": touched, "touch": rng.randrange(6)}
+                if fmt not in ("vcfgt", "vcfpgt"):
+                    for drop in ("mask", "index"):
+                        yield {"op": "entries", "fmt": fmt, "header": header, "ents": ents, "gz": rng.random() < 0.3, "nl": True, "crlf": False, "lazy": True,
+                               "k": max(k, 2 * max(len(e) for e in ents) + 2), "longest": max(len(e) for e in ents) + 2, "npcat": [], "touch": 0, "drop": drop}
     # --- files larger than one chunk at the chunk sizes people actually use (1 MiB, the 5,000,000-byte default, 8 MiB, 16 MiB):
     #     buffers of earlier chunks must still be intact when they are looked at after later reads. Files above 4 MB are compared by
     #     a streaming checksum per column (data bytes and row lengths) instead of Python rows.
@@ -481,6 +496,12 @@ def impl(c):
                 whole = table_rows(f.read())
         except Exception as e:
             return {"whole_err": _errname(e)}
+        if c.get("count"):
+            # bnp.count_entries (its own loop over fixed 500000-byte chunks of the byte-level reader) must count the entries of the whole read
+            try:
+                return {"whole": len(whole), "chunked": int(bnp.count_entries(path, buffer_type=bt))}
+            except Exception as e:
+                return {"whole": len(whole), "err": _errname(e)}
         other = c.get("other")
         if other:
             bt2, suffix2 = _buffer_type(other["fmt"])
@@ -520,6 +541,14 @@ def impl(c):
                         if i < len(chunks):
                             fld = dataclasses.fields(chunks[i])
                             getattr(chunks[i], fld[c["touch"] % len(fld)].name)
+                    if c.get("drop"):
+                        # … and after SOME ROWS of every chunk but the last were selected away (filtering chunks before joining them):
+                        # expected = the same rows taken from the chunks of a second, untouched reading of the file
+                        keep = [[j for j in range(len(ch)) if (j + i) % 3 != 0] if i < len(chunks) - 1 else list(range(len(ch))) for i, ch in enumerate(chunks)]
+                        with bnp.open(path, buffer_type=bt, lazy=c["lazy"]) as g:
+                            fresh = [table_rows(ch) for ch in g.read_chunks(min_chunk_size=c["k"])]
+                        whole = [fresh[i][j] for i in range(len(chunks)) for j in keep[i]]
+                        chunks = [ch[np.array(kp, dtype=int)] if c["drop"] == "index" else ch[np.isin(np.arange(len(ch)), kp)] for ch, kp in zip(chunks, keep)]
                     try:
                         joined = np.concatenate(chunks) if len(chunks) > 1 else (chunks[0] if chunks else None)
                     except Exception:
@@ -599,8 +628,10 @@ def tags(c, got):
             t.append("max_chunk_size")
         if c.get("keep"):
             t.append("chunks-kept-alive")
+        if c.get("count"):
+            t.append("count_entries")
         if c.get("npcat") is not None:
-            t.append("chunks-joined-with-np.concatenate")
+            t.append("chunks-joined-with-np.concatenate" + (":after-row-selection" if c.get("drop") else ""))
     else:
         L = len(c["file"])
         t += ["mode:" + c.get("mode", "-"), "final-newline" if (c["file"] and c["file"][-1] == 10) else "no-final-newline"]
